@@ -39,7 +39,9 @@ class Ctx:
             self.env[name] = self._macro(sf)
 
     def _macro(self, sf):
-        code = compile(ast.Expression(ast.parse(textwrap.dedent(sf.body).strip(), mode="eval").body), f"<spec {sf.name}>", "eval")
+        tree = _Lazy().visit(ast.parse(textwrap.dedent(sf.body).strip(), mode="eval"))
+        ast.fix_missing_locations(tree)
+        code = compile(tree, f"<spec {sf.name}>", "eval")
 
         def fn(*args, _sf=sf, _code=code):
             local = dict(zip(_sf.params, args))
@@ -50,10 +52,25 @@ class Ctx:
         tree = ast.parse(textwrap.dedent(text).strip(), mode="eval")
         if old_local is not None:
             tree = _OldSubst(self, old_local).visit(tree)
-            ast.fix_missing_locations(tree)
+        tree = _Lazy().visit(tree)
+        ast.fix_missing_locations(tree)
         env = dict(self.env)
         env.update(local)   # lambdas inside forall() resolve names through globals
         return eval(compile(tree, "<contract>", "eval"), env, {})
+
+
+class _Lazy(ast.NodeTransformer):
+    """implies(a, b) / ite(c, a, b) evaluate their operands lazily, as the logical reading does."""
+
+    def visit_Call(self, node):
+        self.generic_visit(node)
+        if isinstance(node.func, ast.Name) and node.func.id == "implies" and len(node.args) == 2:
+            return ast.copy_location(ast.BoolOp(op=ast.Or(), values=[
+                ast.UnaryOp(op=ast.Not(), operand=node.args[0]),
+                ast.Call(func=ast.Name(id="bool", ctx=ast.Load()), args=[node.args[1]], keywords=[])]), node)
+        if isinstance(node.func, ast.Name) and node.func.id == "ite" and len(node.args) == 3:
+            return ast.copy_location(ast.IfExp(test=node.args[0], body=node.args[1], orelse=node.args[2]), node)
+        return node
 
 
 class _Short(Exception):
